@@ -6,6 +6,8 @@ hit an assertion run in a forked child."""
 import json
 from vlib.core import SplitMix
 
+# classification labels of the two defects fixed by props/C50/fix_series (no `finding:` line any more: a monitor
+# failure on one of these calls is a regression of the fix and makes the check fail)
 K_INSERT = "dynar-insert-past-end-unchecked"
 K_TRUNC = "dynar-index-truncated-to-int"
 
